@@ -737,6 +737,9 @@ class FileWeaver:
         toks = self.toks
         lo, hi = it.open, it.close
         self.check_stmt_counts(it, spec, key)
+        self._cur_fn_open = it.open
+        k0 = prev_sig(toks, it.open - 1)
+        self._cur_has_ret = any(toks[q].text == "-" and toks[q + 1].text == ">" for q in range(it.kw, it.open))
         # loops by ordinal
         loops = []
         i = lo + 1
@@ -897,12 +900,14 @@ class FileWeaver:
             self.add(toks[lo].end, 0, text, "ghost", marks)
             return
         if where == "end":
-            p = prev_sig(toks, hi - 1)
-            if toks[p].text in (";", "}") or p == lo:
+            stmts = self.split_stmts(lo, hi)
+            fn_level = (lo == self._cur_fn_open)
+            if not stmts:
+                self.add(toks[hi].pos, 0, text, "ghost", marks)
+            elif toks[stmts[-1][1]].text == ";" or not (fn_level and self._cur_has_ret):
                 self.add(toks[hi].pos, 0, text, "ghost", marks)
             else:
-                s = self.stmt_start(p, lo)
-                self.add(toks[s].pos, 0, text, "ghost", marks)
+                self.add(toks[stmts[-1][0]].pos, 0, text, "ghost", marks)
             return
         if arg.startswith("stmt"):
             path = [int(x) for x in arg.split()[1].split("/")]
